@@ -28,7 +28,49 @@ SHAPES = [('h3/src/connection.rs', 'poll_accept_recv', 'poll_accept_recv'),
           ('h3/src/server/connection.rs', 'poll_accept_request_stream_internal', 'server_poll_accept_request'),
           ('h3/src/server/connection.rs', 'poll_control', 'server_poll_control'),
           ('h3/src/server/connection.rs', 'poll_next_control', 'server_poll_next_control'),
-          ('h3/src/client/connection.rs', 'poll_close', 'client_poll_close')]
+          ('h3/src/client/connection.rs', 'poll_close', 'client_poll_close'),
+          ('h3/src/client/connection.rs', 'wait_idle', 'client_wait_idle'),
+          ('h3/src/server/connection.rs', 'poll_accept_request_stream', 'server_poll_accept_request_stream'),
+          ('h3/src/server/connection.rs', 'poll_requests_completion', 'server_poll_requests_completion'),
+          ('h3/src/server/connection.rs', 'create_resolver_internal', 'server_create_resolver_internal')]
+
+# the closed list of functions of the `impl Connection` blocks of the two roles: a function that is not listed (a new
+# entry point driving the control stream, say) is an anchor loss, not something silently outside the model
+IMPL_FNS = {'h3/src/client/connection.rs': ['shutdown', 'wait_idle', 'poll_close'],
+            'h3/src/server/connection.rs': ['new', 'create_resolver', 'poll_accept_request_stream', 'accept',
+                                            'create_resolver_internal', 'shutdown', 'poll_accept_request_stream_internal',
+                                            'poll_control', 'poll_next_control', 'poll_requests_completion']}
+# whole items outside functions that the model takes as identities
+ITEM_SHAPES = [('h3/src/proto/push.rs', r'impl\s+From<PushId>\s+for\s+VarInt\b', 'pushid_to_varint'),
+               ('h3/src/proto/push.rs', r'impl\s+From<VarInt>\s+for\s+PushId\b', 'varint_to_pushid')]
+
+
+def impl_fns(src):
+    """names of the fns defined directly in the `impl<..> Connection<..>` blocks (not trait impls), in source order"""
+    names = []
+    for m in re.finditer(r'\bimpl\s*<[^{;]*?>\s*Connection\s*<[^{;]*?>\s*(?:where[^{]*)?\{', src.text):
+        i = m.end() - 1
+        j = match_close(src.text, i)
+        block = src.text[i + 1:j]
+        depth = 0
+        k = 0
+        while k < len(block):
+            c = block[k]
+            if c == '"':
+                k += 1
+                while k < len(block) and block[k] != '"':
+                    k += 2 if block[k] == '\\' else 1
+            elif c == '{':
+                depth += 1
+            elif c == '}':
+                depth -= 1
+            elif depth == 0:
+                mm = re.match(r'fn\s+(\w+)', block[k:])
+                if mm and (k == 0 or not (block[k - 1].isalnum() or block[k - 1] == '_')):
+                    names.append(mm.group(1))
+                    k += mm.end() - 1
+            k += 1
+    return names
 
 
 def shape_of(body):
@@ -36,6 +78,8 @@ def shape_of(body):
     import hashlib
     body = re.sub(r'"(?:[^"\\]|\\.)*"', '""', body)
     body = re.sub(r'\s+', '', body)
+    # rustfmt adds or drops trailing commas when an expression is re-wrapped
+    body = body.replace(',)', ')').replace(',}', '}').replace(',]', ']')
     return int(hashlib.sha256(body.encode()).hexdigest()[:15], 16)
 
 
@@ -181,6 +225,20 @@ def extract(repo):
         src = cache.setdefault(path, Source(repo + '/' + path))
         body, spans['shape_' + name] = src.fn_body(fn)
         f['shapes'].append((name, shape_of(body)))
+    for path, want in IMPL_FNS.items():
+        src = cache.setdefault(path, Source(repo + '/' + path))
+        got = impl_fns(src)
+        if got != want:
+            raise AnchorLost('functions of `impl Connection` in %s: %r (model written against %r)' % (path, got, want))
+    for path, rx, name in ITEM_SHAPES:
+        src = cache.setdefault(path, Source(repo + '/' + path))
+        m = re.search(rx, src.text)
+        if not m:
+            raise AnchorLost(name)
+        i = src.text.index('{', m.end())
+        j = match_close(src.text, i)
+        spans['shape_' + name] = (src.line_of(i), src.line_of(j))
+        f['shapes'].append((name, shape_of(src.text[m.start():j + 1])))
     return f, spans
 
 
